@@ -7,6 +7,8 @@ registered check): every check must stay silent on it (python -m sa.check Cxx --
   shift           two comment lines are inserted at the top of every file (all line numbers move)
   hoist           every `if <test>:` becomes `_cN = <test>; if _cN:` and every `return <call>` becomes
                   `_rN = <call>; return _rN` (conditions and results bound to locals first)
+  swap-branches   every `if c: A else: B` (B not an elif chain) becomes `if not c: B else: A`
+  kwargs          the keyword arguments of every call are written in reverse order
   reorder-methods the methods of every class are listed in reverse order (classes with property
                   setters / overloads are left alone)
 """
@@ -57,6 +59,18 @@ for p in (out / 'cirkit').rglob('*.py'):
             if any(isinstance(n, (ast.Yield, ast.YieldFrom)) for n in ast.walk(fn)): continue
             fn.body = hoist_block(fn.body); n_fn += 1
         ast.fix_missing_locations(t)
+        p.write_text(ast.unparse(t)); continue
+    if kind == 'swap-branches':
+        for c in [n for n in ast.walk(t) if isinstance(n, ast.If)]:
+            if c.orelse and not (len(c.orelse) == 1 and isinstance(c.orelse[0], ast.If)):
+                c.test = ast.UnaryOp(op=ast.Not(), operand=c.test)
+                c.body, c.orelse = c.orelse, c.body; n_fn += 1
+        ast.fix_missing_locations(t)
+        p.write_text(ast.unparse(t)); continue
+    if kind == 'kwargs':
+        for c in [n for n in ast.walk(t) if isinstance(n, ast.Call)]:
+            if len(c.keywords) >= 2 and all(k.arg is not None for k in c.keywords):
+                c.keywords = list(reversed(c.keywords)); n_fn += 1
         p.write_text(ast.unparse(t)); continue
     if kind == 'reorder-methods':
         for c in [n for n in ast.walk(t) if isinstance(n, ast.ClassDef)]:
